@@ -501,19 +501,42 @@ def r5_compact_table(ctx):
         ok = len(kinds) == 2 and 'slot-is-not-base[s]+c' not in kinds
         ctx.obligation(ok)
         (ctx.ok if ok else ctx.violation)('C14.R5', 'C14.R5/eval/both-cases-present', fn.path, fn.site(), {'cases': sorted(kinds)}, cfg)
-        # store_successors: base[i] = b ; for each (c, v): check[b+c] = i, value[b+c] = v
-        log = calllog.run(ctx, cfg, CTB + 'store_successors', uninterpreted=lambda p: False)
+        # store_successors: base[i] = b ; for each (c, v): check[b+c] = i, value[b+c] = v.  The stores are read where they
+        # are written: in store_successors, or in set_successors itself when the helper is written in place there
+        inplace = ctx.crate(cfg).fn(CTB + 'store_successors') is None
+        if inplace:
+            log = calllog.run(ctx, cfg, CTB + 'set_successors')
+            i, b, succ = T.var('a1', 'u32'), None, A(2)
+        else:
+            log = calllog.run(ctx, cfg, CTB + 'store_successors', uninterpreted=lambda p: False)
+            i, b, succ = T.var('a1', 'u32'), T.var('a2', 'u32'), A(3)
         ip, fn = log.ip, log.fn
-        bld, i, b, succ = A(0), T.var('a1', 'u32'), T.var('a2', 'u32'), A(3)
+
+        def builder_writes(st):
+            obj = st.frames[0].cells[1].v
+            while isinstance(obj, X.Ref):
+                obj = ip.load(st, obj.cell, obj.path)
+            return dict(ip.written(st, obj))
+        okb, store_entry = False, None
+        for head, entry in log.entries:
+            ws = builder_writes(entry)
+            for kk, v in ws.items():
+                if kk.startswith('base') and T.show(i) in kk and (v == b or (b is None and isinstance(v, tuple))):
+                    if inplace and any(k2.startswith(('check', 'value')) for k2 in ws):
+                        continue
+                    okb, store_entry = True, entry
+                    if b is None:
+                        b = v
+        ctx.obligation(okb)
+        (ctx.ok if okb else ctx.violation)('C14.R5', 'C14.R5/store_successors/base[i]-is-b', fn.path, fn.site(), None, cfg)
         n = 0
         for it in log.iterations:
-            obj = it.state.frames[0].cells[1].v
-            while isinstance(obj, X.Ref):
-                obj = ip.load(it.state, obj.cell, obj.path)
-            ws = dict(ip.written(it.state, obj))
+            ws = builder_writes(it.state)
             chk = [(kk, v) for kk, v in ws.items() if kk.startswith('check')]
             val = [(kk, v) for kk, v in ws.items() if kk.startswith('value')]
-            ok = len(chk) == 1 and len(val) == 1
+            if inplace and not chk and not val:
+                continue        # the search loop for a free base
+            ok = len(chk) == 1 and len(val) == 1 and b is not None
             if ok:
                 n += 1
                 poss = [hv for hv, ev in it.mapping if T.TYPES.get(hv) == 'usize']
@@ -529,15 +552,7 @@ def r5_compact_table(ctx):
             (ctx.ok if ok else ctx.violation)('C14.R5', 'C14.R5/store_successors/slot-b+c-gets-owner-i-and-value-v', fn.path, fn.site(), {'writes': {k_: T.show(v)[:80] for k_, v in ws.items()}}, cfg)
         ctx.obligation(n >= 1)
         (ctx.ok if n >= 1 else ctx.violation)('C14.R5', 'C14.R5/store_successors/loop-found', fn.path, fn.site(), None, cfg)
-        okb = False
-        for head, entry in log.entries:
-            obj = entry.frames[0].cells[1].v
-            while isinstance(obj, X.Ref):
-                obj = ip.load(entry, obj.cell, obj.path)
-            ws = dict(ip.written(entry, obj))
-            okb = okb or any(kk.startswith('base') and T.show(i) in kk and v == b for kk, v in ws.items())
-        ctx.obligation(okb)
-        (ctx.ok if okb else ctx.violation)('C14.R5', 'C14.R5/store_successors/base[i]-is-b', fn.path, fn.site(), None, cfg)
+        store_log = log
         # base_conflicts: any (c,_) with check[b + c] != num_states
         an = analyse(ctx, cfg, CTB + 'base_conflicts', [], uninterpreted=lambda p: False)
         bb = T.var('a1', 'u32')
@@ -554,19 +569,29 @@ def r5_compact_table(ctx):
             (ctx.ok if ok else ctx.violation)('C14.R5', 'C14.R5/base_conflicts/slot-b+c-occupied-iff-not-sentinel', an.fn.path, an.fn.site(), {'returned': T.show(q)[:240]}, cfg)
         # set_successors: the row is stored at a base for which base_conflicts answered false on the same table state,
         # i.e. no slot it writes is owned by another state (first-fit never overwrites)
-        log = calllog.run(ctx, cfg, CTB + 'set_successors')
         nst = 0
-        for o in log.outs:
-            if o.kind != 'ret':
-                continue
-            sts = [c_ for c_ in o.state.calls if c_[0] == CTB + 'store_successors']
-            ok = len(sts) == 1 and sts[0][1][1] == T.var('a1', 'u32') and sts[0][1][3] == A(2)
-            if ok:
-                nst += 1
-                free = T.typed(('call', CTB + 'base_conflicts', (sts[0][1][0], sts[0][1][2], A(2))), 'bool')
-                ok = log.ip.entails(o.state, NOT(free)) and o.state.calls[-1] == sts[0]
-            ctx.obligation(ok)
-            (ctx.ok if ok else ctx.violation)('C14.R5', 'C14.R5/set_successors/row-stored-only-at-a-conflict-free-base', log.fn.path, log.fn.site(), {'calls': [T.show(calllog.call_term(c_))[:140] for c_ in o.state.calls], 'leaf_constraints': pc_text(o)}, cfg)
+        if inplace:
+            # the last thing done to the table before the stores is the conflict test that failed for this very base
+            log = store_log
+            if store_entry is not None:
+                bc = [c_ for c_ in store_entry.calls if c_[0] == CTB + 'base_conflicts']
+                ok = bool(bc) and store_entry.calls[-1] == bc[-1] and bc[-1][1][1] == b and bc[-1][1][2] == A(2) and log.ip.entails(store_entry, NOT(T.typed(calllog.call_term(bc[-1]), 'bool')))
+                nst += 1 if ok else 0
+                ctx.obligation(ok)
+                (ctx.ok if ok else ctx.violation)('C14.R5', 'C14.R5/set_successors/row-stored-only-at-a-conflict-free-base', log.fn.path, log.fn.site(), {'calls': [T.show(calllog.call_term(c_))[:140] for c_ in store_entry.calls], 'leaf_constraints': [T.show(f)[:120] for f in store_entry.pc][-8:]}, cfg)
+        else:
+            log = calllog.run(ctx, cfg, CTB + 'set_successors')
+            for o in log.outs:
+                if o.kind != 'ret':
+                    continue
+                sts = [c_ for c_ in o.state.calls if c_[0] == CTB + 'store_successors']
+                ok = len(sts) == 1 and sts[0][1][1] == T.var('a1', 'u32') and sts[0][1][3] == A(2)
+                if ok:
+                    nst += 1
+                    free = T.typed(('call', CTB + 'base_conflicts', (sts[0][1][0], sts[0][1][2], A(2))), 'bool')
+                    ok = log.ip.entails(o.state, NOT(free)) and o.state.calls[-1] == sts[0]
+                ctx.obligation(ok)
+                (ctx.ok if ok else ctx.violation)('C14.R5', 'C14.R5/set_successors/row-stored-only-at-a-conflict-free-base', log.fn.path, log.fn.site(), {'calls': [T.show(calllog.call_term(c_))[:140] for c_ in o.state.calls], 'leaf_constraints': pc_text(o)}, cfg)
         ctx.obligation(nst >= 1)
         (ctx.ok if nst >= 1 else ctx.violation)('C14.R5', 'C14.R5/set_successors/store-site-found', log.fn.path, log.fn.site(), None, cfg)
         # sentinel in new and resize
